@@ -92,6 +92,24 @@ func driveProto(rc *RunCtx) {
 				return
 			}
 		}
+		if sc.Bool("latereplay") {
+			// everything that was ever delivered is delivered once more, now that every party has finished
+			// (a transport that redelivers after a reconnect): no crash, no second result, nothing sent
+			snap := append([]*Envelope{}, w.Delivered...)
+			for _, e := range snap {
+				if e.Junk {
+					continue
+				}
+				c := *e
+				w.seq++
+				c.Seq = w.seq
+				w.Faults["replay_after_everyone_finished"]++
+				w.Deliver(&c)
+				if rc.Failed() {
+					return
+				}
+			}
+		}
 		if sc.Bool("wire") && !strings.HasSuffix(pr.Proto, "sign") {
 			// post-run secret scan for secrets that only exist at the end (fresh shares)
 			for _, n := range pr.Nodes {
@@ -190,7 +208,7 @@ func genC02(tier string, seed uint64, run int) *Scenario {
 	s := t + 1 + r.IntN(n-t)
 	sc := &Scenario{Check: "C02", Kind: "proto", Seed: seed, Run: run, P: map[string]interface{}{
 		"proto": "ed-sign", "n": n, "t": t, "signers": s, "ids": idPatterns[r.IntN(len(idPatterns))], "idpool": r.IntN(60), "msg": edMsgKinds[run%len(edMsgKinds)],
-		"edges": (run/4)%2 == 1,
+		"edges": (run/4)%2 == 1, "ownpid": []string{"", "separate", "padded"}[run%3], "idstrings": []string{"", "", "", "blank", "dup"}[run%5],
 	}}
 	if run%32 == 3 {
 		// directed: a key and signer set whose session id has a leading zero byte
@@ -210,7 +228,8 @@ func genC01(tier string, seed uint64, run int) *Scenario {
 		return &Scenario{Check: "C01", Kind: "ec-refuse", Seed: seed, Run: run, P: map[string]interface{}{"which": run / 8 % 3}}
 	}
 	// (edges: about one entropy read in 64 returns a value with 1-3 leading zero bytes; half of the runs)
-	p := map[string]interface{}{"proto": "ec-sign", "msg": ecDigestKinds[run%len(ecDigestKinds)], "edges": (run/4)%2 == 1}
+	p := map[string]interface{}{"proto": "ec-sign", "msg": ecDigestKinds[run%len(ecDigestKinds)], "edges": (run/4)%2 == 1,
+		"ownpid": []string{"", "separate", "padded"}[run%3], "idstrings": []string{"", "", "", "blank", "dup"}[run%5]}
 	var s int
 	if tier == "thorough" && run%3 == 0 {
 		cfgs := [][2]int{{2, 1}, {3, 1}, {3, 2}, {4, 2}, {5, 1}, {5, 4}, {4, 3}}
@@ -271,6 +290,7 @@ func genC03(tier string, seed uint64, run int) *Scenario {
 		}
 	}
 	p["edges"] = (run/4)%2 == 1
+	p["ownpid"], p["idstrings"] = []string{"", "separate", "padded"}[run%3], []string{"", "", "", "blank", "dup"}[run%5]
 	p["n"], p["t"] = n, t
 	if run%8 == 5 || (tier != "thorough" && run == 11) { // (run 11 is an ECDSA run: run%8 == 5 never is one in quick)
 		p["ids"] = "congruent" // two ids equal modulo q: must be refused, or still yield a sound sharing
@@ -354,6 +374,9 @@ func fillProtoParams(r *rand.Rand, tier string, proto string, p map[string]inter
 	}
 	// the free-form id strings of the party ids: unique mostly, all blank or shared now and then
 	p["idstrings"] = []string{"", "", "", "", "blank", "dup"}[r.IntN(6)]
+	// how a party learns which party it is: the list element itself, an equal but separate PartyID object
+	// (the README's way), or a separate object with a fixed-width (leading-zero) encoding of the key
+	p["ownpid"] = []string{"", "", "separate", "separate", "padded", ""}[r.IntN(6)]
 	if (proto[3:] == "sign" || proto == "ec-reshare") && r.IntN(8) == 0 {
 		p["shortssid"] = true // a key set whose session id has a leading zero byte (ssid.go)
 		if proto == "ed-sign" {
@@ -381,6 +404,7 @@ func genC07(tier string, seed uint64, run int) *Scenario {
 	proto, _ := protoForRun(r, tier, run, ecEvery)
 	p := map[string]interface{}{"proto": proto, "ref": true, "model": true}
 	nodes := fillProtoParams(r, tier, proto, p)
+	p["latereplay"] = run%5 < 3 // every message delivered once more after everybody has finished
 	if strings.HasPrefix(proto, "ec-") && proto != "ec-keygen" && (run/ecEvery)%6 < 3 {
 		p["shortssid"] = true // every second ECDSA signing / resharing run: a session id with a leading zero byte
 	}
